@@ -309,7 +309,13 @@ pub fn run_calls(b: &mut Built, sc: &Scenario, spec: &StratSpec, seed: u64, repl
     let disp = b.disp.as_mut().expect("dispatcher");
     let world = &b.world;
     #[cfg(feature = "par")]
-    let other_pool = sc.from_pool.map(|n| rayon::ThreadPoolBuilder::new().num_threads(n).build().expect("pool"));
+    // Some(0): a worker of the dispatcher's own supplied pool calls dispatch; Some(n): a worker of
+    // another pool of n threads
+    let other_pool: Option<std::sync::Arc<rayon::ThreadPool>> = match sc.from_pool {
+        Some(0) => b.pool.clone(),
+        Some(n) => Some(std::sync::Arc::new(rayon::ThreadPoolBuilder::new().num_threads(n).build().expect("pool"))),
+        None => None,
+    };
     let ctx2 = ctx.clone();
     #[cfg(feature = "real")]
     let sched = detsim::ext::run_ext;
